@@ -109,6 +109,13 @@ class SciPySampler(Sampler):
 
         sample_dim = variable_count if self._mask is None else self._mask.sum()
 
+        # A sampler that handles no variables at all produces only zeros:
+        if sample_dim == 0:
+            return np.zeros(
+                (realization_count, perturbation_count, variable_count),
+                dtype=np.float64,
+            )
+
         if self._method in _STATS_SAMPLERS:
             samples = self._generate_stats_samples(
                 1 if self._sampler_config.shared else realization_count,
@@ -134,7 +141,7 @@ class SciPySampler(Sampler):
 
     def _init_sampler(
         self, options: dict[str, Any]
-    ) -> tuple[rv_continuous | QMCEngine, dict[str, Any]]:
+    ) -> tuple[rv_continuous | QMCEngine | None, dict[str, Any]]:
         options = copy.deepcopy(options)
         if self._method in _STATS_SAMPLERS:
             self._set_options(options)
@@ -145,7 +152,13 @@ class SciPySampler(Sampler):
                 if self._mask is None
                 else self._mask.sum()
             )
-            sampler = _QMC_ENGINES[self._method](sample_dim, seed=self._rng, **options)
+            # QMC engines cannot be created without dimensions, and a sampler
+            # that handles no variables does not need one:
+            sampler = (
+                _QMC_ENGINES[self._method](sample_dim, seed=self._rng, **options)
+                if sample_dim > 0
+                else None
+            )
         else:
             msg = "sampler {self._method} is not supported by this SciPy version"
             raise NotImplementedError(msg)
